@@ -33,6 +33,7 @@ def sortStrings (l : List String) : List String := l.foldr insStr []
 def parseOp (ws : List String) : Option RepOp :=
   match ws with
   | ["w", a, b, c] => do some (.write (← a.toNat?) (← b.toNat?) (← c.toNat?))
+  | ["cw", a, b] => do some (.cwrite (← a.toNat?) (← b.toNat?))
   | ["r", a, b] => do some (.read (← a.toNat?) (← b.toNat?))
   | ["snap", n, "u"] => some (.snap n true)
   | ["snap", n, "a"] => some (.snap n false)
